@@ -115,7 +115,13 @@ def run(ctx):
                     inputs = names
                 strip = True
             else:
-                sigs = SignatureArray([np.array(sorted(idx_of(UNIVERSE[i]) for i in s), dtype=ks.index_dtype) for s in subsets], ks)
+                if channel == 'sigfile' and (si // 4) % 2 == 1:
+                    # a signature file computed with k = 20 (64-bit indices that differ only ABOVE bit 32), while the command line carries
+                    # the default / another k: the tree comes from the stored signatures whatever their integer type
+                    wide = KmerSpec(20, 'ATGAC')
+                    sigs = SignatureArray([np.array(sorted((idx_of(UNIVERSE[i]) + 1) * (1 << 33) + 7 for i in s), dtype=wide.index_dtype) for s in subsets], wide)
+                else:
+                    sigs = SignatureArray([np.array(sorted(idx_of(UNIVERSE[i]) for i in s), dtype=ks.index_dtype) for s in subsets], ks)
                 sf = os.path.join(d, 'sigs.gs')
                 if channel == 'sigfile':
                     labf = LABELSETS[si % len(LABELSETS)]
